@@ -481,7 +481,7 @@ theorem checkRetx (cfg : Cfg) (h : IdxInv k) : IdxInv (Kernel.checkRetx cfg k) :
   apply foldl_inv (P := IdxInv)
   · apply foldl_inv (P := IdxInv)
     · exact foldl_inv (P := fun acc : Kernel × List Nat × List Nat => IdxInv acc.1) (Kernel.retxPass1Step cfg)
-        k.retxCands (k, [], []) h (fun b a hb => IdxInv.retxPass1Step cfg b a hb)
+        (k.retxCands cfg) (k, [], []) h (fun b a hb => IdxInv.retxPass1Step cfg b a hb)
     · intro b fd hb
       exact hb.emitHandshake fd
   · intro b fd hb
